@@ -1043,9 +1043,13 @@ def _three_way(fi):
     class Unknown(Exception):
         pass
 
+    env = {}
+
     def ev(e, sc):
         if isinstance(e, ast.Constant) and isinstance(e.value, (int, bool)):
             return e.value
+        if isinstance(e, ast.Name) and e.id in env:
+            return env[e.id]
         if isinstance(e, ast.Compare) and len(e.ops) == 1 and isinstance(
                 e.left, ast.Name) and isinstance(
                 e.comparators[0], ast.Name):
@@ -1084,6 +1088,11 @@ def _three_way(fi):
                 if st.value is None:
                     raise Unknown
                 return ev(st.value, sc)
+            if isinstance(st, ast.Assign) and len(st.targets) == 1 and \
+                    isinstance(st.targets[0], ast.Name) and \
+                    st.targets[0].id not in (a, b):
+                env[st.targets[0].id] = ev(st.value, sc)
+                continue
             if isinstance(st, ast.If):
                 v = run(st.body if ev(st.test, sc) else st.orelse, sc)
                 if v is not None:
@@ -1092,7 +1101,11 @@ def _three_way(fi):
             raise Unknown
         return None
     try:
-        lt, eq, gt = (run(fi.node.body, sc) for sc in ('lt', 'eq', 'gt'))
+        res = []
+        for sc in ('lt', 'eq', 'gt'):
+            env.clear()
+            res.append(run(fi.node.body, sc))
+        lt, eq, gt = res
     except Unknown:
         return False
     return None not in (lt, eq, gt) and lt < 0 and eq == 0 and gt > 0
